@@ -11,9 +11,10 @@
    * L1 (moka) and the optional L2 (foyer) as partial maps key -> bytes.  Sizes,
      weights, admission and eviction policies are NOT modelled; instead an
      eviction oracle may remove any entry of any tier between any two steps
-     (events EEvict1 / EEvict2).  The only thing assumed of moka / foyer is
-     their key -> value contract: a lookup returns the value last inserted
-     under that key, or nothing.
+     (events EEvict1 / EEvict2), and any single lookup may come back empty
+     although the tier holds the key (event EStepMiss).  The only thing
+     assumed of moka / foyer is their key -> value contract: a lookup returns
+     the value last inserted under that key, or nothing.
    * TieredCache::get_or_fetch as the step sequence the code performs:
        L1 lookup; L2 lookup; (L2 hit) promotion into L1;
        (miss) fetch from the inner store; insert L2; insert L1.
@@ -238,6 +239,21 @@ Definition tstep (st : store) (l1 : kvmap) (l2 : option kvmap) (q : req) (p : pc
   | PDone r => (PDone r, l1, l2)
   end.
 
+(* The same step when the cache answers "nothing" to a lookup although it may
+   hold the key (the contract of moka / foyer only promises: the value last
+   inserted under the key, OR NOTHING — foyer was observed to miss a key and
+   to serve it again later without any insert in between, when a flush to
+   disk was in flight).  Steps that are not lookups are unchanged. *)
+Definition tstep_miss (st : store) (l1 : kvmap) (l2 : option kvmap) (q : req) (p : pc)
+  : pc * kvmap * option kvmap :=
+  match p with
+  | PStart => (PL2, l1, l2)
+  | PL2 => (PFetch, l1, l2)
+  | _ => tstep st l1 l2 q p
+  end.
+
+Definition tstep_gen (miss : bool) := if miss then tstep_miss else tstep.
+
 Fixpoint set_nth {A} (i : nat) (x : A) (l : list A) : list A :=
   match l, i with
   | [], _ => []
@@ -249,25 +265,29 @@ Fixpoint set_nth {A} (i : nat) (x : A) (l : list A) : list A :=
 Inductive event :=
 | EStart (q : req)            (* a reader arrives *)
 | EStep (i : nat)             (* reader i performs its next step *)
+| EStepMiss (i : nat)         (* ... and if that step is a cache lookup, the cache answers "nothing" *)
 | EEvict1 (k : key)           (* the eviction oracle drops k from L1 *)
 | EEvict2 (k : key)           (* ... from L2 *)
 | EPut (k : key) (o : obj).   (* a writer creates a new object *)
+
+Definition do_step (miss : bool) (s : sys) (i : nat) : sys :=
+  match nth_error (s_threads s) i with
+  | None => s
+  | Some t =>
+      match tstep_gen miss (s_store s) (s_l1 s) (s_l2 s) (t_req t) (t_pc t) with
+      | (p', l1', l2') =>
+          mkSys (s_store s) l1' l2'
+                (set_nth i (mkThread (t_req t) (t_born t) p') (s_threads s))
+      end
+  end.
 
 Definition apply_event (s : sys) (e : event) : sys :=
   match e with
   | EStart q =>
       mkSys (s_store s) (s_l1 s) (s_l2 s)
             (s_threads s ++ [mkThread q (s_store s) (first_pc q)])
-  | EStep i =>
-      match nth_error (s_threads s) i with
-      | None => s
-      | Some t =>
-          match tstep (s_store s) (s_l1 s) (s_l2 s) (t_req t) (t_pc t) with
-          | (p', l1', l2') =>
-              mkSys (s_store s) l1' l2'
-                    (set_nth i (mkThread (t_req t) (t_born t) p') (s_threads s))
-          end
-      end
+  | EStep i => do_step false s i
+  | EStepMiss i => do_step true s i
   | EEvict1 k => mkSys (s_store s) (adel N.eqb k (s_l1 s)) (s_l2 s) (s_threads s)
   | EEvict2 k => mkSys (s_store s) (s_l1 s) (option_map (adel N.eqb k) (s_l2 s)) (s_threads s)
   | EPut k o => mkSys (fst (store_put (s_store s) k o)) (s_l1 s) (s_l2 s) (s_threads s)
@@ -288,15 +308,18 @@ Definition evict_event (e : evict) : event := match e with Ev1 k => EEvict1 k | 
 
 Inductive sop :=
 | OPut (k : key) (o : obj)
-| ORead (q : req) (ev : list (list evict)).   (* ev: the evictions before step 1, 2, ... *)
+| ORead (q : req) (ev : list (list evict * bool)).
+    (* ev: for step 1, 2, ...: the evictions before it, and whether a lookup
+       performed by it is answered "nothing" regardless of the tier's content *)
 
 Definition max_steps : nat := 5.
 
 (* the schedule of one sequential read by reader i: evictions, step, evictions, step ... *)
-Fixpoint read_sched (i : nat) (fuel : nat) (ev : list (list evict)) : list event :=
+Fixpoint read_sched (i : nat) (fuel : nat) (ev : list (list evict * bool)) : list event :=
   match fuel with
   | O => []
-  | S f => map evict_event (hd [] ev) ++ EStep i :: read_sched i f (tl ev)
+  | S f => map evict_event (fst (hd ([], false) ev))
+           ++ (if snd (hd ([], false) ev) then EStepMiss i else EStep i) :: read_sched i f (tl ev)
   end.
 
 Definition sop_sched (i : nat) (o : sop) : list event :=
